@@ -254,8 +254,18 @@ def hyp_shard(ctx, shard):
     hyp_search(ctx, "xml", xml_cases(), body_xml, n_xml, shard=shard)
 
 
+def fuzz_targets():
+    def body_xml(c):
+        check_xml(*c)
+    return {"text": (text_strategy, check_text), "xml": (xml_cases(), body_xml)}
+
+
 def run(ctx):
     ctx.pmap(hyp_shard, range(16))
+    if not ctx.quick:
+        from vf import fuzz
+        fuzz.campaign(ctx, ID, "text", procs=4, runs=100000)
+        fuzz.campaign(ctx, ID, "xml", procs=8, runs=15000)
 
 
 def replay(case):
